@@ -453,3 +453,76 @@ Theorem C14_a64_compile_asm_wf_xtors_needed :
     In (A64.ADDI (A64.X 5) (A64.X 5) 4100) cs.
 Proof. exact asm_wf_xtors_needed. Qed.
 Print Assumptions C14_a64_compile_asm_wf_xtors_needed.
+
+(* ======================= round 4: asm_wf and code_small as THEOREMS for RISC-V =======================
+   PROVED now (Sem/WfGuard64.v, Proof/RVWfAll.v, Proof/RVWfCor.v):
+   (l) EVERY instruction the RISC-V code generator emits passes the checker Sem/RVWf.asm_wf that the run-time check
+       applies to the real output: labels (with the routine's `cleanup`) defined once, every referenced label defined,
+       registers x0..x31, ADDI / JALR / LW / SW with a 12-bit signed immediate (field offsets 16..72, reference-count
+       increments, the table dispatch), LI with a 64-bit value.  Hypotheses, all boolean on the PROGRAM: labels_guard,
+       lin_check_prog (gives calls_guard), imm_guard_rv (literals 64-bit; a type declares at most 512 xtors:
+       `ADDI X1, Xt, 4k`; a Substitute lists at most 2048 pairs).  The xtor bound is a REAL limit (finding):
+       C14_rv_compile_asm_wf_xtors_needed and docs/C14.md.
+   (m) code_small under the size_guard of x86-64. *)
+From SCC Require Import Proof.RVWfAll Proof.RVWfCor Proof.RVHSimExample.
+
+Theorem C14_rv_compile_asm_wf :
+  forall (p : prog) (lc : N) (cs : list RV.rcode) (n : nat) (lc' : N),
+    labels_guard p = true -> lin_check_prog p = true -> imm_guard_rv p = true ->
+    RV.rv_compile p lc = Ok (cs, n, lc') -> RVWf.asm_wf cs = None.
+Proof. exact rv_compile_asm_wf. Qed.
+Print Assumptions C14_rv_compile_asm_wf.
+
+Theorem C14_rv_compile_code_small :
+  forall (p : prog) (lc : N) (cs : list RV.rcode) (n : nat) (lc' : N),
+    lin_check_prog p = true -> size_guard p = true ->
+    RV.rv_compile p lc = Ok (cs, n, lc') -> RVSimAddr.code_small cs = true.
+Proof. exact rv_compile_code_small. Qed.
+Print Assumptions C14_rv_compile_code_small.
+
+(* the back-end methods, for all arguments the generic code generator can hand over *)
+Theorem C14_rv_table_jump_wf :
+  forall (t : RV.reg) (k : N), RVWfAll.reg_enc t -> (k < RV_XTORS_MAX)%N -> RVWfAll.W (RV.r_add_and_jump t (RV.jump_length k)).
+Proof. exact RVWfAll.W_add_and_jump. Qed.
+Print Assumptions C14_rv_table_jump_wf.
+Theorem C14_rv_load_immediate_wf :
+  forall (t : RV.reg) (i : Z), RVWfAll.reg_enc t -> lit64 i = true -> RVWfAll.W (RV.r_load_immediate t i).
+Proof. exact RVWfAll.W_load_immediate. Qed.
+Print Assumptions C14_rv_load_immediate_wf.
+Theorem C14_rv_erase_wf : forall (t : RV.reg) (lc : N), RVWfAll.reg_enc t -> RVWfAll.W (fst (RV.r_erase_block t lc)).
+Proof. exact RVWfAll.W_erase. Qed.
+Print Assumptions C14_rv_erase_wf.
+Theorem C14_rv_share_wf :
+  forall (t : RV.reg) (n lc : N), RVWfAll.reg_enc t -> (n < RV_SUBST_MAX)%N -> RVWfAll.W (fst (RV.r_share_block_n t n lc)).
+Proof. exact RVWfAll.W_share. Qed.
+Print Assumptions C14_rv_share_wf.
+Theorem C14_rv_store_wf :
+  forall (to_store remaining : ctx) (lc : N) (c : list RV.rcode) (lc' : N),
+    RV.r_store to_store remaining lc = Ok (c, lc') -> RVWfAll.W c.
+Proof. exact RVWfAll.W_r_store. Qed.
+Print Assumptions C14_rv_store_wf.
+Theorem C14_rv_load_wf :
+  forall (to_load existing : ctx) (lc : N) (c : list RV.rcode) (lc' : N),
+    RV.r_load to_load existing lc = Ok (c, lc') -> RVWfAll.W c.
+Proof. exact RVWfAll.W_r_load. Qed.
+Print Assumptions C14_rv_load_wf.
+
+(* the hypotheses are satisfiable *)
+Theorem C14_rv_compile_asm_wf_nonvacuous :
+  wf_guard_rv rh_lin = true /\
+  wf_guard_rv (lin_of ex_calls) = true /\ wf_guard_rv (lin_of ex_shared) = true /\
+  wf_guard_rv (lin_of ex_data) = true /\ wf_guard_rv (lin_of ex_labels) = true /\
+  wf_guard_rv (lin_of ex_codata) = true.
+Proof. exact wf_guard_rv_examples. Qed.
+Print Assumptions C14_rv_compile_asm_wf_nonvacuous.
+
+(* the xtor bound cannot be dropped: 514 destructors, invoke of the last one: `ADDI X1, X5, 2052` *)
+Theorem C14_rv_compile_asm_wf_xtors_needed :
+  let p := RVWfCor.wide_type_prog 514 in
+  labels_guard p = true /\ lin_check_prog p = true /\
+  imm_guardP RV_SUBST_MAX 514 lit64 p = true /\ imm_guard_rv p = false /\
+  exists cs n lc', RV.rv_compile p 0 = Ok (cs, n, lc') /\
+    RVWf.asm_wf cs = Some "operand not encodable in its instruction form"%string /\
+    In (RV.ADDI RV.TEMP 5%N 2052) cs.
+Proof. exact RVWfCor.asm_wf_xtors_needed. Qed.
+Print Assumptions C14_rv_compile_asm_wf_xtors_needed.
